@@ -58,3 +58,16 @@ From RS Require Import EndToEndStmts EndToEndFacts.
 Theorem C16_end_to_end : stmt_end_to_end.
 Proof. exact end_to_end. Qed.
 Print Assumptions C16_end_to_end.
+
+(** the same with the hypothesis on the depot permutation that the driver evaluates on every run (Hyps.v: the
+    executable readings [valid_instance_b], [inst_unsigned_b], [tours_ok_b] of the hypotheses, with soundness lemmas) *)
+From RS Require Import LoadStmts LoadFacts SchedObs Output Render Hyps EndToEndChecked.
+Theorem C16_end_to_end_checked_hypotheses :
+  forall i perm nw,
+    valid_instance_b i = true -> inst_unsigned_b i = true -> perm_ok i perm -> load i perm = Ok nw ->
+    forall tours final, tours_ok_b nw tours = true -> pipeline_result nw tours final ->
+      exists out, render nw final = Ok out /\
+        check_C01 nw out = [] /\ check_C02 nw out = [] /\ check_C03 nw out = [] /\
+        check_C04 nw out = [] /\ check_C05 nw out = [].
+Proof. exact end_to_end_checked. Qed.
+Print Assumptions C16_end_to_end_checked_hypotheses.
